@@ -46,6 +46,11 @@ package volatility
 //@ ensures[C04] forall kk :: 0 <= kk && kk < len(result0) ==> hor(result0, kk) <= hor(c, kk + (d.IdlePeriod()))
 //@ ensures[C04] forall kk :: 0 <= kk && kk < len(result1) ==> hor(result1, kk) <= hor(c, kk + (d.IdlePeriod()))
 //@ ensures[C04] forall kk :: 0 <= kk && kk < len(result2) ==> hor(result2, kk) <= hor(c, kk + (d.IdlePeriod()))
+//@ ensures[C01] "upper-lower" forall k :: 0 <= k && k < len(result0) ==> result0[k] == wmaxS(c, k, k + d.Max.Period) && result2[k] == wminS(c, k, k + d.Max.Period)
+//@ ensures[C01] "middle" forall k :: 0 <= k && k < len(result1) ==> result1[k] == (result0[k] + result2[k]) / 2
+//@ ensures[C15] "ordered" forall k :: 0 <= k && k < len(result1) ==> result0[k] >= result1[k] && result1[k] >= result2[k]
+//@ use wmax_cong(closings[0], c, _, _)
+//@ use wmin_cong(closings[1], c, _, _)
 
 //@ func KeltnerChannel.Compute
 //@ requires k.Ema.Period >= 1 && k.Atr.IdlePeriod() >= k.Ema.IdlePeriod() && consumed(highs) == 0 && consumed(lows) == 0 && consumed(closings) == 0 && len(highs) == len(lows) && len(highs) == len(closings)
